@@ -111,7 +111,7 @@ PROPS = {
         "rule": "both texts of every visited state, re-read through from_fen (both modes) and FromStr, re-formatted; route pairs for == <=> equal text",
         "assumptions": BOARD_ASSUME,
         "jobs": [
-            chess_model("model-text", ["CanonRoundTrip"], [], MCQ, MCT),
+            chess_model("model-text", ["CanonRoundTrip", "ParseModelRoundTrip"], [], MCQ, MCT),
             board_job("text", ["text"], ["C07"], {"histories": 600, "subtrees": 80, "transpositions": 100}, {"histories": 50000, "subtrees": 200, "deep": 20, "transpositions": 3000}, sample_kinds=["text", "pair"]),
         ],
         "report": ["C07", "C03"],
@@ -228,14 +228,17 @@ PROPS = {
         "rule": "texts: canonical records (Shredder and plain) of accepted boards; every single-field replacement from a per-field catalogue of malformed / unsupported / grey values; truncations, extensions, extra spaces; removed / duplicated ranks; random character edits; random strings; each through from_fen(false), from_fen(true) and FromStr",
         "assumptions": VALUE_ASSUME,
         "jobs": [
-            parse_job("texts", "parse", ["C08"], {"bases": 60, "random": 600, "edits": 30, "catalogue-pct": 60}, {"bases": 4000, "random": 60000, "edits": 60, "catalogue-pct": 100}, sample_kinds=["parse"]),
+            {"type": "model", "name": "model-parser", "spec": "MC_Parse", "exhaustive": True,
+             "params": {"quick": {"workers": 12, "xmx": "6g", "parse_mc": {"bases": 2, "alphabet": [32, 47, 45, 48, 49, 56, 57, 119, 75, 72, 104, 101, 54, 80, 120, 43]}},
+                        "thorough": {"workers": 16, "xmx": "10g", "timeout": 5000, "parse_mc": {"bases": 24, "alphabet": [32, 47, 45, 48, 49, 56, 57, 119, 98, 75, 81, 107, 113, 72, 65, 104, 97, 101, 54, 51, 80, 112, 82, 120, 43]}}}},
+            parse_job("texts", "parse", ["C08", "EXT"], {"bases": 60, "random": 600, "edits": 30, "catalogue-pct": 60}, {"bases": 4000, "random": 60000, "edits": 60, "catalogue-pct": 100}, sample_kinds=["parse"]),
         ],
     },
     "C09": {
         "rule": "builder states: accepted boards' builder images, 1-2 random mutations of them, targeted single-aspect corruptions, random states; each built and its record (checked against RecordOf) parsed by from_fen(true) and FromStr",
         "assumptions": VALUE_ASSUME,
         "jobs": [
-            parse_job("candidates", "cand", ["C09"], {"bases": 300, "mutations": 10, "random": 500, "targeted-pct": 40}, {"bases": 15000, "mutations": 14, "random": 40000, "targeted-pct": 60}, sample_kinds=["build"]),
+            parse_job("candidates", "cand", ["C09", "EXT"], {"bases": 300, "mutations": 10, "random": 500, "targeted-pct": 40}, {"bases": 15000, "mutations": 14, "random": 40000, "targeted-pct": 60}, sample_kinds=["build"]),
         ],
         "report": ["C09"],
     },
